@@ -63,6 +63,51 @@ func TestRacePass(t *testing.T) {
 			t.Errorf("REALSOCK: the attempt failed by itself (%v); 10 s later the peer's end of the connection was still open (%v): the failed attempt left its connection behind", err, e)
 		}
 	}
+	// (c) a peer that accepts the connection and then says nothing: the attempt is bounded by its context (what Dial's Timeout
+	// and the caller's cancellation rely on) - it ends within 10 s of a 300 ms deadline, not when the peer pleases
+	sln, err := net.Listen("tcp", "127.0.0.1:0")
+	if err != nil {
+		t.Fatalf("listen: %v", err)
+	}
+	defer sln.Close()
+	hold := make(chan net.Conn, 4)
+	go func() {
+		for {
+			c, err := sln.Accept()
+			if err != nil {
+				return
+			}
+			hold <- c // kept open, never answered
+		}
+	}()
+	{
+		ctx, cancel := context.WithTimeout(context.Background(), 300*time.Millisecond)
+		type res struct {
+			c   *tls.Conn
+			err error
+		}
+		out := make(chan res, 1)
+		start := time.Now()
+		go func() {
+			c, err := d.DialFunc(ctx, "tcp", sln.Addr().String(), &tls.Config{ServerName: "a.example", RootCAs: tlsx.Pool(), MinVersion: tls.VersionTLS13})
+			out <- res{c, err}
+		}()
+		select {
+		case r := <-out:
+			if r.err == nil {
+				r.c.Close()
+				t.Errorf("REALSOCK: a handshake with a peer that never answers succeeded")
+			}
+		case <-time.After(10 * time.Second):
+			t.Errorf("REALSOCK: an attempt against a peer that accepts and never answers was still running %v after its context's 300 ms deadline: the attempt is not bounded by its context", time.Since(start).Round(time.Second))
+		}
+		cancel()
+		select {
+		case c := <-hold:
+			c.Close()
+		default:
+		}
+	}
 	// (b) a real TLS server; the attempt is made under a context with a 300 ms deadline (what Dial's Timeout hands to DialFunc);
 	// 900 ms later the connection must still carry data
 	cert := tlsx.Leaf(0, false, "a.example")
